@@ -241,12 +241,15 @@ def run_case(case):
             if variant == "keeplog":
                 kw = dict(initialize_log_info=False, max_time=m.project.time + spec["sim"]["max_time"])
             if variant == "edit_resim":
+                from . import edits as E
                 rs = [w for tm in m.project.organization.team_list for w in tm.worker_list] + \
                      [f for wp in m.project.organization.workplace_list for f in wp.facility_list]
-                for r_ in vr.sample(rs, min(len(rs), vr.randint(1, 3))):
+                for r_ in vr.sample(rs, min(len(rs), vr.randint(0, 2))):
                     for x in vr.sample(range(0, 12), vr.randint(1, 3)):
                         if x not in r_.absence_time_list:
                             r_.absence_time_list.append(x)     # in place, as a user would
+                # ... and other parameters (skills, costs, work amounts, rules, flags, capacities)
+                spec, _what = E.edit(vr, spec, m)
             tr2, err2 = resimulate(m, spec, monitors_for(prop), sim_kw=kw)
             res.absorb(tr2, props=(prop,))
             res.count("resimulated_runs")
